@@ -203,6 +203,9 @@ func verifTGNewTrie(rt *rapid.T, tsm data.StorageManager, hasher hashing.Hasher,
 	return tr
 }
 
+// verifTGPlainHasher is the production trie hasher.
+func verifTGPlainHasher() hashing.Hasher { return blake2b.NewBlake2b() }
+
 // verifTGPlainTrie builds a blake2b trie over a fresh memory database (for plain regression tests).
 func verifTGPlainTrie(level uint) (data.Trie, error) {
 	tsm, err := NewTrieStorageManagerWithoutPruning(memorydb.New())
